@@ -1,5 +1,7 @@
 //! anydb-mc — model-checking engines for the anydb properties (see /verif/DESIGN.md).
 
+mod importx;
+mod lazyx;
 mod rawx;
 mod rawx_run;
 mod vecreads;
@@ -49,6 +51,20 @@ fn main() {
                 let mut run = report::Run::new(p, tier, "vecx");
                 vecx_run::add(&mut run, &kf, p, tier, if tier == "quick" { 45 } else { 1500 });
                 run.cov("rule", serde_json::json!(rawx_run::RULE));
+                run.finish()
+            }
+            "C14" => {
+                let kf = report::KnownFindings::load();
+                let mut run = report::Run::new("C14", tier, "importx");
+                importx::add(&mut run, &kf, tier);
+                run.cov("rule", serde_json::json!("complete cross product of the listed configuration axes, one fresh database per case; a case is one (create, re-import) pair on the real code; all cases are distinct by construction"));
+                run.finish()
+            }
+            "C15" => {
+                let kf = report::KnownFindings::load();
+                let mut run = report::Run::new("C15", tier, "lazyx");
+                lazyx::add(&mut run, &kf, tier);
+                run.cov("rule", serde_json::json!("every lazy vector built from every source content / mapping of the stated sizes; for each, every read API x all (from,to) pairs over 0..len+1 and usize::MAX x all subsets of six indices, compared with the defining formula evaluated on plain Vecs; a case is distinct by (kind, expected result)"));
                 run.finish()
             }
             "C13" => {
